@@ -517,6 +517,10 @@ def periodics(factories):
 
 
 def _withdraw(node: dawgie.pl.dag.Node, target: str, visited: []):
+    # an algorithm that reads back its own output is its own child
+    if any(node is seen for seen in visited):
+        return
+
     if target in node.get('do', []):
         node.get('do').remove(target)
     if target in node.get('doing', []):
